@@ -23,7 +23,7 @@ pub fn run(tier: &str) -> Result<Report, String> {
         sem::note_network(&mut rep, b);
         let alpha = Alphabet::extended(if b.n == 1 { 1 } else { 2 }, 2, 1, 2);
         let mut g = Gen::new(alpha.clone());
-        let mut fs: Vec<_> = g.closed_up_to(m).into_iter().filter(|f| f.uses_wild_or_dom()).collect();
+        let mut fs: Vec<_> = g.closed_up_to(if tier == "quick" && ["imp1", "con2"].contains(&b.name.as_str()) { 4 } else { m }).into_iter().filter(|f| f.uses_wild_or_dom()).collect();
         {
             // template shapes beyond the node bound (nested / repeated domains, the same inner domain
             // under different outer domains, wild-cards in duplicated sub-trees)
